@@ -563,7 +563,13 @@ func newParamGroupedSlice(f reflect.StructField, c containerStore) (paramGrouped
 // any decorated value groups provided in further scopes.
 func (pt paramGroupedSlice) getDecoratedValues(c containerStore) (reflect.Value, bool) {
 	for _, c := range c.storesToRoot() {
-		if items, ok := c.getDecoratedValueGroup(pt.Group, pt.Type); ok {
+		// Decorated groups are stored under the element type, like the
+		// members that feed the group, so that every slice type with that
+		// element type (e.g. a named slice type) sees the decoration.
+		if items, ok := c.getDecoratedValueGroup(pt.Group, pt.Type.Elem()); ok {
+			if items.Type() != pt.Type && items.Type().ConvertibleTo(pt.Type) {
+				items = items.Convert(pt.Type)
+			}
 			return items, true
 		}
 	}
